@@ -54,7 +54,11 @@ def build_record(rs):
     names = [f[1] for f in rs["fields"]]
     kw = dict(zip(names, vals))
     kw.update(meta)
-    return desc.recordType(**kw)
+    rec = desc.recordType(**kw)
+    # "mutate": [[field, spec], ...] appends a raw value to a list field *after* construction (in-place, bypassing conversion)
+    for fname, spec in rs.get("mutate", []):
+        getattr(rec, fname).append(lit.ev(spec))
+    return rec
 
 
 def rs(name, fields, values, **meta):
